@@ -49,7 +49,7 @@ type G struct {
 
 func NewG(t *rapid.T, cfg Cfg) *G {
 	g := &G{T: t, Cfg: cfg, budget: cfg.Budget, nodes: map[reflect.Type][]reflect.Value{}, Labels: map[string]int{}, Avoided: map[string]int{}}
-	g.bigCls = rapid.IntRange(0, 5).Draw(t, "bigLenClass")
+	g.bigCls = rapid.IntRange(0, 6).Draw(t, "bigLenClass")
 	g.bigSlot = rapid.IntRange(0, 2).Draw(t, "bigSlot")
 	return g
 }
@@ -62,7 +62,7 @@ func (g *G) name(s string) string {
 }
 
 // LenClassName names the stratified length classes.
-var LenClassName = []string{"len0", "len1-7", "len8", "len9-255", "len256-263", "len264-600"}
+var LenClassName = []string{"len0", "len1-7", "len8", "len9-255", "len256-263", "len264-600", "len1020-1030"}
 
 func LenClass(n int) int {
 	switch {
@@ -76,8 +76,10 @@ func LenClass(n int) int {
 		return 3
 	case n <= 263:
 		return 4
-	default:
+	case n <= 600:
 		return 5
+	default:
+		return 6
 	}
 }
 
@@ -97,10 +99,16 @@ func (g *G) sliceLen() int {
 			lo, hi = 9, 255
 		case 4:
 			lo, hi = 256, 263
-		default:
+		case 5:
 			lo, hi = 264, 600
+		default:
+			// beyond the quantifier's 600: the decoder stops pre-allocating at 1024 elements
+			lo, hi = 1020, 1030
+			if g.Cfg.MaxBig < 600 {
+				lo, hi = 264, 600
+			}
 		}
-		if hi > g.Cfg.MaxBig {
+		if hi > g.Cfg.MaxBig && !(g.bigCls == 6 && g.Cfg.MaxBig >= 600) {
 			hi = g.Cfg.MaxBig
 		}
 		if lo > hi {
